@@ -40,6 +40,8 @@ under their parameter names), never a line number: a shifted line or a renamed l
 from __future__ import annotations
 
 import ast
+import copy
+from pathlib import Path
 
 from harness.lib import LEAN, REPO
 from harness.translate import flow
@@ -266,10 +268,17 @@ def read_hosvd(src):
     def rank_is_auto():
         cands = []
         for e in L.entries("effect"):
-            pc = e.rel_pc()
+            pc = [simplify(c) for c in e.rel_pc()]
+            if sub_k(e.target) and not pc:
+                # `ranks[k] = <cut> if ranks[k] == 0 else ranks[k]`
+                v = simplify(e.value)
+                if isinstance(v, ast.IfExp) and sub_k(v.orelse, e.name):
+                    e = copy.copy(e)
+                    e.value, pc = v.body, [v.test]
             if not (sub_k(e.target) and len(pc) == 1):
                 continue
             t = pc[0]
+            e.auto_test = t
             if (isinstance(t, ast.Compare) and len(t.ops) == 1 and isinstance(t.ops[0], ast.Eq)
                     and sub_k(t.left, e.name) and _int(t.comparators[0]) is not None and _int(t.comparators[0]) >= 0):
                 cands.append(e)
@@ -278,7 +287,7 @@ def read_hosvd(src):
         e = cands[0]
         st["cut"], st["ranks"] = e, e.name
         ren[e.name] = "ranks"
-        t = e.rel_pc()[0]
+        t = e.auto_test
         out["auto_marker"] = {"value": _int(t.comparators[0]), "python": canon(t)}
 
     def eig_parts(dd, what):
@@ -412,7 +421,8 @@ def read_hosvd(src):
         if rv is None:
             ren[flow.base(p.slice.upper.value.id if off == 0 else p.slice.upper.left.value.id)] = "ranks"
         py = flow.rename(fold(v, {text(vv): "V", text(pi): "pi"}), ren)
-        out["slice_bound"] = {"offset": off, "python": text(py), "doc": text(py)}
+        out["slice_bound"] = {"offset": off, "python": text(py),
+                              "doc": f"V[:, pi[0:ranks[k]{' + ' + str(off) if off else ''}]]"}
 
     def shrink_core():
         if "dimorder" not in {flow.base(i) for i in flow.names(L.iter)}:
@@ -679,6 +689,10 @@ def sources():
 def run(prop: str, info: dict):
     text_, lost, desc = build()
     info.setdefault("translators", {})["gen_tucker"] = {"lost": lost, **desc}
+    if text_ is None:
+        # the source could not be read at all: the pinned definitions (never a stale file of another tree)
+        pin = Path(__file__).parent / "pinned" / OUT.name
+        text_ = pin.read_text() if pin.exists() else None
     if text_ is not None:
         OUT.parent.mkdir(parents=True, exist_ok=True)
         if not OUT.exists() or OUT.read_text() != text_:
